@@ -180,10 +180,10 @@ theorem Ty.isPtr_false_of_kind_struct {t : Ty} (h : t.kind = .struct) : t.isPtr 
 
 /-! ### every accepted field name reachable through embedding has an entry in the raw table -/
 
-def accepts (d : Defects) (f : Field) : Bool := d.unexportedAccepted || f.exported
+def accepts (d : NDefects) (f : Field) : Bool := d.unexportedAccepted || f.exported
 
 /-- once an entry exists the loop never removes it -/
-theorem loopAt_some_of_some (d : Defects) (R : Ty → String → Option Tag) (name : String) :
+theorem loopAt_some_of_some (d : NDefects) (R : Ty → String → Option Tag) (name : String) :
     ∀ (fs : List Field) (cur : Option Tag), cur.isSome → (loopAt d R name fs cur).isSome := by
   intro fs
   induction fs with
@@ -202,7 +202,7 @@ theorem loopAt_some_of_some (d : Defects) (R : Ty → String → Option Tag) (na
     · rfl
     · exact h1
 
-theorem loopAt_some_of_own (d : Defects) (R : Ty → String → Option Tag) (name : String) :
+theorem loopAt_some_of_own (d : NDefects) (R : Ty → String → Option Tag) (name : String) :
     ∀ (fs : List Field) (cur : Option Tag) (f : Field), f ∈ fs → accepts d f → f.name = name →
       (loopAt d R name fs cur).isSome := by
   intro fs
@@ -217,7 +217,7 @@ theorem loopAt_some_of_own (d : Defects) (R : Ty → String → Option Tag) (nam
       simp [ha, hn]
     · exact ih _ f hf ha hn
 
-theorem loopAt_some_of_emb (d : Defects) (R : Ty → String → Option Tag) (name : String) :
+theorem loopAt_some_of_emb (d : NDefects) (R : Ty → String → Option Tag) (name : String) :
     ∀ (fs : List Field) (cur : Option Tag) (f : Field), f ∈ fs → f.anon → (R f.ty name).isSome →
       (loopAt d R name fs cur).isSome := by
   intro fs
@@ -279,20 +279,20 @@ theorem deref_eq_embTarget {f : Field} (h : (embTarget f).isPtr = false) :
     · rename_i u hc'; exact absurd hc' (hc u)
     · exact h
 
-theorem rawAt_congr (d : Defects) (n : Nat) {t t' : Ty} (h : t.deref = t'.deref) (name : String) :
+theorem rawAt_congr (d : NDefects) (n : Nat) {t t' : Ty} (h : t.deref = t'.deref) (name : String) :
     rawAt d n t name = rawAt d n t' name := by
   cases n with
   | zero => rfl
   | succ n => rw [rawAt_succ, rawAt_succ, h]
 
-theorem rawAt_struct (d : Defects) (n : Nat) {t : Ty} (hp : t.isPtr = false) (name : String) :
+theorem rawAt_struct (d : NDefects) (n : Nat) {t : Ty} (hp : t.isPtr = false) (name : String) :
     rawAt d (n + 1) t name = loopAt d (rawAt d n) name t.fields none := by
   rw [rawAt_succ, Ty.deref_of_not_isPtr hp]
   unfold Ty.fields
   cases t.core <;> rfl
 
 /-- completeness of the key set: a field the checker may accept, at any depth, has an entry -/
-theorem rawAt_isSome_of_level (d : Defects) (name : String) :
+theorem rawAt_isSome_of_level (d : NDefects) (name : String) :
     ∀ (k : Nat) (t : Ty) (fuel : Nat), EmbWF t → t.isPtr = false → k < fuel →
       ∀ f ∈ levelFields k t, accepts d f → f.name = name → (rawAt d fuel t name).isSome
   | 0, t, fuel + 1, _, hp, _, f, hf, ha, hn => by
